@@ -454,9 +454,9 @@ public:
     {
       throw KVStoreException("KVStore is shut down");
     }
-    if (_kv.find(key) == _kv.end())
+    if (_kv.find(key) == _kv.end() || isExpiredLocked(key))
     {
-      return; // silent no-op on absent key
+      return; // silent no-op on absent (or expired-not-yet-evicted) key
     }
     startTtlOrCleanup(lock);
 
@@ -521,9 +521,9 @@ public:
     {
       return; // no-op post-shutdown
     }
-    if (_kv.find(key) == _kv.end())
+    if (_kv.find(key) == _kv.end() || isExpiredLocked(key))
     {
-      return; // absent
+      return; // absent (an expired-not-yet-evicted key is absent too: it must not come back)
     }
     if (_expiry.find(key) == _expiry.end())
     {
@@ -1009,6 +1009,15 @@ private:
         delay, [this, keyCopy, idHolder]() { evictionCallback(keyCopy, idHolder); });
     *idHolder = id; // published under _mutex; the closure reads it only under _mutex
     return id;
+  }
+
+  /// \brief True iff key carries an expiry that has already passed (expired but
+  /// not yet evicted). Such a key is absent for every reader, so the expiry
+  /// editors (expireAt/persist) must treat it as absent too. Caller holds _mutex.
+  bool isExpiredLocked(const std::string &key) const
+  {
+    auto eit = _expiry.find(key);
+    return eit != _expiry.end() && eit->second.expiry <= std::chrono::system_clock::now();
   }
 
   void cancelTimerLocked(const std::string &key)
